@@ -6,6 +6,7 @@ import Just.Model.Render
 import Just.Model.Body
 import Just.Model.Syntax
 import Just.Model.Unindent
+import Just.Model.Header
 open Lean Just
 
 /-- first entry whose key occurs in `k` (the fake shell's matching rule) -/
@@ -312,6 +313,32 @@ def handleSyntax (j : Json) : Except String Json := do
     return Json.mkObj [("ast", exprDump e), ("rest", toJson rest.length), ("printed", Json.arr (printed.map tkToJson).toArray),
       ("reparse_same", same)]
 
+def paramJson (p : Header.Param) : Json :=
+  Json.mkObj [("name", p.name), ("export", p.exported),
+    ("kind", match p.kind with | .singular => "singular" | .plus => "plus" | .star => "star"),
+    ("default", match p.default with | some d => exprDump d | none => Json.null)]
+
+def depJson (d : Header.Dep) : Json :=
+  Json.mkObj [("recipe", d.recipe), ("arguments", Json.arr (d.args.map exprDump).toArray)]
+
+/-- {"op":"header","tokens":[..]}: parse a recipe header line, print it back, parse again -/
+def handleHeader (j : Json) : Except String Json := do
+  let toksJ ← (← j.getObjVal? "tokens").getArr?
+  let toks ← toksJ.toList.mapM tkFromJson
+  let fuel := 4 * toks.length + 16
+  match Header.parseHeader fuel toks with
+  | none => return Json.mkObj [("parse", Json.null)]
+  | some (h, rest) =>
+    let printed := Header.printHeader h
+    let again := Header.parseHeader (4 * printed.length + 16) printed
+    let same := match again with
+      | some (h2, []) => (repr h2).pretty == (repr h).pretty
+      | _ => false
+    let ps := h.params ++ (match h.variadic with | some v => [v] | none => [])
+    return Json.mkObj [("name", h.name), ("quiet", h.quiet), ("parameters", Json.arr (ps.map paramJson).toArray),
+      ("dependencies", Json.arr ((h.priors ++ h.subsequents).map depJson).toArray), ("priors", toJson h.priors.length),
+      ("rest", toJson rest.length), ("printed", Json.arr (printed.map tkToJson).toArray), ("reparse_same", same)]
+
 def handleUnindent (j : Json) : Except String Json := do
   let src ← j.getObjValAs? String "src"
   return Json.mkObj [("text", String.ofList (Unindent.unindent src.toList))]
@@ -338,6 +365,7 @@ def handle (line : String) : Json :=
       | "evaluate" => handleEvaluate j
       | "shsplit" => handleShSplit j
       | "lex" => handleLex j
+      | "header" => handleHeader j
       | "unindent" => handleUnindent j
       | "syntax" => handleSyntax j
       | "body" => handleBody j
